@@ -698,6 +698,12 @@ def cause_of(k):
             return "block-mul-batch-constants"
     if op in ("permute", "transpose") and cul == "Zero" and fail == "shape":
         return "zero-permute-noop"
+    if op in ("permute", "transpose", "sum", "prod") and k.get("zero_multibatch_inside") and fail == "raises" \
+            and (exc or "").startswith("RuntimeError-Attempting-to-broadcast"):
+        # the same no-op _permute_batch of a Zero with >= 2 batch dimensions, seen through a container built by an earlier
+        # step (Matmul / Sum / AddedDiag holding the Zero): the container permutes its children, the Zero keeps its shape and
+        # the constructor refuses the mixed batch shapes ( sum / prod over a dimension that is not the last one permute too )
+        return "zero-permute-noop"
     if op in ("repeat", "expand") and cul == "Zero" and exc == "representation-not-tensors":
         return "zero-repeat"
     if op in ("add_diagonal", "add_jitter") and cul == "Zero" and exc in ("zero-add-diag-incompatible", "zero-add-diag-rank", "expand-size-mismatch") \
@@ -790,6 +796,10 @@ def fail_key(j):
         key["culprit"] = cul
     if n["p"] in ("sum", "prod"):
         key["krondiag_inside"] = "KronDiag" in leaf_classes(n)
+    if n["p"] in ("permute", "transpose", "sum", "prod") and n["a"].get("p") != "leaf":
+        key["zero_multibatch_inside"] = any(
+            x["cls"] == "Zero" and len(x["shape"]) >= 4
+            for q in ops.nodes(n) if q["p"] == "leaf" for x in g.nodes(q["e"]))
     key["cause"] = cause_of(key)
     return key
 
